@@ -424,6 +424,20 @@ fn c13_wire(seed: u64, rep: &Report) -> Result<(), String> {
         pool.shards.push(ShardCfg { id: s.to_string(), database: format!("shard{}", s), servers: vec![cell.server(p, "primary"), cell.server(r, "replica")], mirrors: vec![] });
     }
     pool.users.push(UserCfg::new(USER, PASS, 2));
+    // comment-based routing configured in every combination (the commands are independent of it)
+    match rng.below(4) {
+        0 => {}
+        1 => {
+            pool.set("sharding_key_regex", "'/\\* sharding_key: (\\d+) \\*/'");
+        }
+        2 => {
+            pool.set("shard_id_regex", "'/\\* shard_id: (\\d+) \\*/'");
+        }
+        _ => {
+            pool.set("sharding_key_regex", "'/\\* sharding_key: (\\d+) \\*/'");
+            pool.set("shard_id_regex", "'/\\* shard_id: (\\d+) \\*/'");
+        }
+    }
     let mut cfg = Cfg::new();
     cfg.pools.push(pool);
     cell.start_pgcat(&cfg, &StartOpts::default()).map_err(|e| format!("start: {:?}", e))?;
